@@ -4,6 +4,7 @@ import (
 	"fmt"
 	"math/big"
 	"sort"
+	"strings"
 
 	"github.com/circlefin/noble-fiattokenfactory/x/blockibc"
 	ftftypes "github.com/circlefin/noble-fiattokenfactory/x/fiattokenfactory/types"
@@ -224,6 +225,9 @@ func naturalFailures(e *fw.Env) {
 		amt   *big.Int
 		spec  spec.Spec
 	}
+	dusty := func(denom string, amt int64) func(ctx sdk.Context) error {
+		return func(ctx sdk.Context) error { return Deposit(w, ctx, w.K("carol"), denom, big.NewInt(amt)) }
+	}
 	cctp := spec.Route{Kind: "cctp", Domain: 0, MintRecipient: mint}
 	internal := spec.Route{Kind: "internal", To: w.K("rcpt1").String()}
 	hyp := spec.Route{Kind: "hyp", Domain: 1, TokenID: w.Hyp.TokenUSDC.Bytes(), Recipient: mint, GasLimit: &zero, MaxFee: &spec.Coin{Denom: world.USDN, Amount: "0"}}
@@ -233,6 +237,9 @@ func naturalFailures(e *fw.Env) {
 		}
 	}
 	cases := []nat{
+		{"oversized-passthrough", nil, world.USDC, big.NewInt(1_000_000), spec.Spec{Route: internal, Passthrough: []byte("hello")}},
+		{"oversized-passthrough-with-dust-on-the-orbiter-account", dusty(world.USDC, 12345), world.USDC, big.NewInt(1_000_000), spec.Spec{Route: internal, Passthrough: []byte("hello")}},
+		{"oversized-passthrough-with-dust-and-fee", dusty(world.USDN, 1), world.USDN, big.NewInt(1_000_000), spec.Spec{HasFee: true, Fees: []spec.Fee{{Recipient: rc[1], IsBPS: true, BPS: 10}}, Route: spec.Route{Kind: "internal", To: w.K("rcpt2").String()}, Passthrough: make([]byte, 300)}},
 		{"blacklisted-fee-recipient", blacklist(rc[0]), world.USDC, big.NewInt(1_000_000), spec.Spec{HasFee: true, Fees: []spec.Fee{{Recipient: rc[1], IsBPS: true, BPS: 10}, {Recipient: rc[0], IsBPS: true, BPS: 10}}, Route: cctp}},
 		{"blacklisted-internal-recipient", blacklist(w.K("rcpt1").String()), world.USDC, big.NewInt(1_000_000), spec.Spec{HasFee: true, Fees: []spec.Fee{{Recipient: rc[1], IsBPS: true, BPS: 10}}, Route: internal}},
 		{"paused-token-factory", func(ctx sdk.Context) error {
@@ -274,6 +281,11 @@ func naturalFailures(e *fw.Env) {
 		case o.Res.Panic != nil || o.Res.Err != nil:
 		case o.Res.Ack == nil:
 			e.Res.Violate(fw.Violation{Property: "C03", Kind: "no-acknowledgement-after-failure", Tags: map[string]string{"site": "natural:" + c.name}, Detail: c.name, Witness: wtn})
+		case o.Success() && strings.HasPrefix(c.name, "oversized-"):
+			// the refusal is a rule of the module itself (default limit 0), not of a dependency: a
+			// success acknowledgement means the error was lost on the way
+			e.Res.Violate(fw.Violation{Property: "C03", Kind: "error-swallowed", Tags: map[string]string{"site": "natural:" + c.name},
+				Detail: "the pre-transfer hook must refuse this packet, yet it is acknowledged as successful: " + o.Delta.String(), Witness: wtn})
 		case o.Success():
 			e.Res.Inconc("natural failure %s did not occur (transfer succeeded)", c.name)
 		default:
